@@ -1384,7 +1384,16 @@ def build_tasks(ctx, root):
             [dict(kind='inline', line=3, column=0), dict(kind='extract_function', line=2, column=11, until_line=2, until_column=16)]),
            ("class C:\n    def m(self, a):\n        t = a * 2\n        return t",
             [dict(kind='extract_function', line=3, column=8, until_line=4, until_column=16),      # method, no NL -> NL
-             dict(kind='inline', line=3, column=8)])]
+             dict(kind='inline', line=3, column=8)]),
+           # comments that NAME the renamed identifier and sit in the prefix of one of its occurrences (a comment line
+           # right above a statement starting with the name; a trailing comment before the next argument line):
+           # a rename must leave them alone (only the name token changes)
+           ("# total is the running sum; total starts at 0\ntotal = 0\nfor k in (1, 2):\n    # add k to total\n    total = total + k\n"
+            "print(\n    k,  # not total\n    total,\n)",
+            [dict(kind='rename', line=2, column=0), dict(kind='rename', line=5, column=12), dict(kind='rename', line=8, column=4),
+             dict(kind='inline', line=2, column=0)]),
+           ("def scale(value, factor):\n    # value times factor\n    value = value * factor  # value updated\n    # return value\n    return value",
+            [dict(kind='rename', line=1, column=10), dict(kind='rename', line=3, column=4), dict(kind='rename', line=5, column=11)])]
     for fi, (src, fops) in enumerate(fam):
         for with_nl in (False, True):
             for style in ('lf', 'crlf'):
